@@ -124,6 +124,7 @@ type judge struct {
 	reply   []byte
 	timeout int // consecutive timeout-on-complete verdicts
 	skipped int
+	noRDL   bool // the scripted connection refuses read deadlines
 }
 
 func errClass(err error) string {
@@ -149,7 +150,7 @@ func errClass(err error) string {
 // attempt runs one schedule; returns the violation (kind, attrs, detail) or "".
 func (j *judge) attempt(steps []xport.ReadStep, rt time.Duration) (string, mon.Attrs, string, bool) {
 	c := j.c
-	out := clientx.Run(c.Client, j.req, xport.Script{Reply: j.reply, Steps: steps, Tail: "deadline"}, clientx.Options{ReadTimeout: rt, Ctor: int(uint64(c.Seed) % 4)})
+	out := clientx.Run(c.Client, j.req, xport.Script{Reply: j.reply, Steps: steps, Tail: "deadline", NoReadDeadline: j.noRDL}, clientx.Options{ReadTimeout: rt, Ctor: int(uint64(c.Seed) % 4)})
 	L := len(j.reply)
 	E := j.req.ExpectedResponseLength()
 	a := mon.Attrs{"client": clientx.KindName(c.Client), "fc": int(c.FC), "exception_reply": c.Exc, "delta": E - L}
@@ -290,6 +291,16 @@ func run(ci any, r *mon.Rec) {
 	switch c.Mode {
 	case "single":
 		j.schedule(xport.Cuts(L, nil, 0), 0)
+		if c.Client != clientx.Serial && (E == L || c.Exc) {
+			// a connection that does not do read deadlines (SetReadDeadline fails, reads simply block until bytes are
+			// there): the short poll deadline is a convenience of the client, not something the reply depends on
+			jn := &judge{c: c, r: r, req: j.req, q: j.q, reply: j.reply, noRDL: true}
+			jn.schedule(xport.Cuts(L, nil, 0), 0x4e0)
+			if L > 4 {
+				jn.schedule(xport.Cuts(L, []int{1 + rng.Intn(L-2)}, 0), 0x4e1)
+			}
+			r.Cover("transport", "connection without read deadlines")
+		}
 		pos := map[int]bool{}
 		if c.Dense {
 			for k := 1; k < L; k++ {
@@ -485,8 +496,36 @@ func run(ci any, r *mon.Rec) {
 		if idle > 0 || slow {
 			ncalls = 3
 		}
+		if slow {
+			// before the slow exchanges: one quick call made by a caller in a hurry - a context that expires in 70 ms, a reply
+			// that is there at once. That caller's deadline is that caller's: the calls after it have the client's own read
+			// timeout (3 s) for their slow replies
+			if rq, _, rep, err := Build(rng, c.Client, c.FC, 0, false); err == nil && rq.ExpectedResponseLength() <= len(rep) {
+				sess.NextDeadline = 70 * time.Millisecond
+				out := sess.Do(rq, xport.Script{Reply: rep, Steps: xport.Cuts(len(rep), nil, 0), Tail: "deadline"})
+				r.Cover("session", fmt.Sprintf("a first call with a 70 ms context deadline (succeeded: %v)", out.Err == nil))
+			}
+		}
 		for i := 0; i < ncalls; i++ {
-			rq, _, rep, err := Build(rng, c.Client, c.FC, rng.Intn(3), false)
+			excCall := !slow && idle == 0 && i == 2
+			rq, _, rep, err := Build(rng, c.Client, c.FC, rng.Intn(3), excCall)
+			if excCall {
+				// one exchange of the session is answered with a Modbus exception: a complete, in-order reply - the
+				// caller gets the typed error, the connection is as good as before and the following calls succeed
+				if err != nil {
+					continue
+				}
+				out := sess.Do(rq, xport.Script{Reply: rep, Steps: xport.Cuts(len(rep), nil, 0), Tail: "deadline"})
+				var et *packet.ErrorResponseTCP
+				var er *packet.ErrorResponseRTU
+				r.Eval(1)
+				r.Cover("session", "an exception reply in the middle of a session")
+				if out.Hung || out.Panic != "" || out.Err == nil || !(errors.As(out.Err, &et) || errors.As(out.Err, &er)) {
+					r.Violate(c, "exception-not-reported", mon.Attrs{"client": clientx.KindName(c.Client), "fc": int(c.FC), "outcome": "session"}, fmt.Sprintf("call %d of a session answered with the exception % x: err=%v panic=%q hung=%v", i, rep, out.Err, out.Panic, out.Hung))
+					break
+				}
+				continue
+			}
 			if err != nil || rq.ExpectedResponseLength() > len(rep) {
 				continue // FC23: every exchange times out (known finding), not a session matter
 			}
